@@ -36,7 +36,7 @@ PROFILES = {
     "C02": {"rm_parent": 6, "rm_ws": 8, "set_flag": 6, "move": 7, "copy": 8, "close_reopen": 6, "move_data": 6, "copy_extent": 5, "pg_add": 6},
     "C05": {"add_comment": 5, "add_file": 3, "rm_ws": 12, "rm_parent": 9, "pg_add": 8, "pg_rm": 4, "pg_new": 5, "lookup": 6, "copy": 4, "set_flag": 5},
     "C06": {"mk_dup": 8, "copy": 10, "rm_ws": 6, "rm_parent": 5, "lookup": 4},
-    "C09": {"observe": 4, "list": 4, "type_edit": 6, "retype": 8, "copy": 9},
+    "C09": {"observe": 4, "list": 4, "type_edit": 6, "retype": 8, "copy": 10, "pg_add": 7, "add_data": 14},
     "C12": {"copy": 16, "set_values": 7, "rename": 6, "set_meta": 6, "pg_add": 6, "copy_extent": 6, "pg_new": 3},
 }
 
@@ -225,7 +225,7 @@ class World:
                 if orng.random() < 0.4:
                     del self.pending[1:3]
             elif kind == "copy" and op.get("dh", h) != h and op.get("children") and not op.get("mask") and self.prop in ("C09", "C06", "C12", "C01", "C02") \
-                    and self._has_grouped_data(h, op["t"]) and orng.random() < 0.6:
+                    and self._has_grouped_data(h, op["t"]) and orng.random() < 0.9:
                 # pattern "partial identifier retention": copy into the other workspace -> copy that copy next to itself -> move one of
                 # the first copy's data sets to another fitting object there -> remove the first copy -> copy the source again:
                 # the root's identifier is free again in the target, one child's identifier is still in use
@@ -233,7 +233,7 @@ class World:
                 self.sim.probe("partial_retention_planned")
                 self.pending = [
                     {"id": -1, "k": "copy", "sub": rng.getrandbits(64), "h": dh, "keep": False, "t": {"by": op_id, "n": 0, "fb": 0, "want": "entity"},
-                     "dh": dh, "d": None, "children": True, "clear": False},
+                     "dh": dh, "d": None, "children": False, "clear": False},      # (without children: no name clash for the move)
                     {"id": -1, "k": "move_data", "sub": rng.getrandbits(64), "h": dh, "keep": False, "t": {"by": op_id, "n": 1, "fb": 0, "want": "data"},
                      "d": None, "pick": orng.randrange(1000), "only_created_by": op_id},
                     {"id": -1, "k": "rm_ws", "sub": rng.getrandbits(64), "h": dh, "keep": False, "t": {"by": op_id, "n": 0, "fb": 0, "want": "entity"}},
@@ -828,7 +828,7 @@ class World:
                 if t is not None and d is not None:
                     return {"t": t, "dh": dh2, "d": d, "children": True, "clear": False}
             t = None
-        if rng.random() < 0.35:
+        if rng.random() < (0.5 if self.prop == "C09" else 0.35):
             t = self.target(rng, h, "object", lambda r: bool(r.get("pgs")))
         if t is None and rng.random() < 0.25 and self.copies:
             srcs = {c["src"] for c in self.copies if c["h"] == h} | {c["dst"] for c in self.copies if c["dh"] == h}
